@@ -1601,7 +1601,7 @@ def run(env, rep):
                                 "T-1 x continuation 2T+2 / 3T after the last use; Site: every pair of paths of each "
                                 "resource object x upload / download / both being rendered; empty BERT blocks with the "
                                 "more flag (block 0, later, repeated)")
-    n = env.scale(1200, 20000)
+    n = env.scale(1000, 20000)
     for j in range(n):
         if j % 16 == 5:
             scripts.append(gen_busy_script(env.rng, T))
